@@ -255,8 +255,12 @@ def sizeVal (r : Except Err (Val × Option Val × Screen)) : Except Err Val :=
 draw being the model).  `none` = not executed (Dynamic: C19's interpreter). -/
 def drawExecuted (sizesOnly : Bool) (c : Ctx) (w : Widget) : Option String :=
   let scr0 := Screen.resize 0 0
+  -- Center / Button allocate Max.Width × Max.Height cells: executed up to 40 000 cells (the theorems cover the rest;
+  -- the thorough tier has constraints of 2 000 000 cells, which the hand model alone goes through)
+  let big := c.maxW.toNat * c.maxH.toNat > 40000 && c.maxW != unbounded && c.maxH != unbounded
   match w with
   | .center child =>
+    if big then none else
     let R : Ro := { noRo with fields := fun f => if f = "Child" then some (.wid 1) else none, childDraw := fun c' => draw child c' }
     some (execResult sizesOnly (run R Gen.SurfaceBodies.centerDraw Gen.SurfaceBodies.centerDrawParams [.wid 0, .ctx c] scr0))
   | .rich false lines =>
@@ -311,6 +315,7 @@ def drawExecuted (sizesOnly : Bool) (c : Ctx) (w : Widget) : Option String :=
       some (execResult sizesOnly (run R Gen.SurfaceBodies.textfieldDraw Gen.SurfaceBodies.textfieldDrawParams [.wid 0, .ctx c] scr0))
     else none
   | .button st lines =>
+    if big then none else
     let flds : String → Option Val := fun f =>
       if f = "mouseDown" ∨ f = "hover" ∨ f = "focused" then some (.bool false)
       else if f = "Style" then some (.wid 7)
